@@ -274,10 +274,12 @@ Section Compat.
     gl_build fv fid fty info here parent kids = gl_build fv' fid' fty info here parent kids.
   Proof.
     intros HRf Hid. unfold gl_build.
-    destruct (String.eqb fty "FEATURE"); [reflexivity|].
+    destruct (String.eqb fty "FEATURE"); [reflexivity|]. cbv zeta.
+    destruct (map fst (filter (fun ko : pfeature * bool => snd ko) kids)) as [|g0 gs]; [reflexivity|].
+    assert (Hgrp : forall n, gl_grp fv fid fty n = gl_grp fv' fid' fty n); [|rewrite Hgrp; reflexivity].
+    intros n. unfold gl_grp.
     destruct (String.eqb fty "XOR"); [reflexivity|].
     destruct (String.eqb fty "OR"); [reflexivity|].
-    destruct (String.eqb fty "GENOR"); [|reflexivity].
     pose proof (Hf _ _ HRf fid fid' "min" Hid min_key) as Hmin.
     pose proof (Hf _ _ HRf fid fid' "max" Hid max_key) as Hmax.
     rr_step Hmin a a' E1 E2. rr_step Hmax b b' E3 E4.
@@ -301,6 +303,7 @@ Section Compat.
     destruct Hty as (Hty & _ & _). destruct Hnm as (Hnm & _ & _). rewrite <- Hty, <- Hnm.
     destruct (jstr tyv) as [fty|e]; [|reflexivity].
     destruct (jstr nmv) as [fname|e]; [|reflexivity].
+    destruct (negb (gl_known_type fty)); [reflexivity|].
     rewrite <- Hhas. destruct (jhas "children" tv); [|reflexivity].
     rr_step Hch chv chv' E7 E8.
     rr_step Hch chl chl' E9 E10.
